@@ -57,6 +57,10 @@ def collect():
             inst = c()
         except Exception as e:
             raise RuntimeError("cannot instantiate %s: %r" % (name, e))
+        ann = {}
+        for k in reversed(c.__mro__):
+            ann.update(getattr(k, "__annotations__", {}) or {})
+        ann = {a: str(t) for a, t in ann.items() if not a.startswith("_") and a not in ("avp_def", "additional_avps", "header", "avps", "code", "name")}
         defs = []
         for d in c.avp_def:
             e = avpmod.get_avp_dictionary_entry(d.avp_code, d.vendor_id)
@@ -68,13 +72,19 @@ def collect():
                          "mand": -1 if d.is_mandatory is None else int(bool(d.is_mandatory)),
                          "cont": d.type_class.__name__ if d.type_class else "",
                          "dx": e is not None, "dg": bool(e is not None and issubclass(e["type"], AvpGrouped)),
-                         "dm": bool(e and e.get("mandatory")), "list": isinstance(cur, list)})
+                         "dm": bool(e and e.get("mandatory")),
+                         # a list attribute: declared as list[...] by the class annotation, or holding a list on a fresh instance
+                         "listdef": isinstance(cur, list), "annotated": d.attr_name in ann,
+                         "listann": ann.get(d.attr_name, "").replace("typing.", "").lower().startswith("list["),
+                         "list": isinstance(cur, list) or ann.get(d.attr_name, "").replace("typing.", "").lower().startswith("list[")})
         defaults[name] = {}
         for d in defs:
             cur = getattr(inst, d["attr"], None)
             if cur is not None and not (isinstance(cur, list) and not cur):
                 defaults[name][d["attr"]] = cur
-        tables[name] = {"name": name, "kind": kind, "defs": defs, "extras": kind == "msg" or hasattr(inst, "additional_avps")}
+        declared = {d["attr"] for d in defs}
+        annonly = sorted(a for a in ann if a not in declared)
+        tables[name] = {"name": name, "kind": kind, "defs": defs, "annonly": annonly, "extras": kind == "msg" or hasattr(inst, "additional_avps")}
     collect.defaults = defaults
     return classes, tables
 
@@ -308,7 +318,9 @@ def run(tier, seed):
     okd = next(d for d in tables["CreditControlRequest"]["defs"] if not d["cont"] and d["dx"])
     tables["ZzCanary"] = {"name": "ZzCanary", "kind": "group", "extras": False, "defs": [
         dict(okd, attr="a"), dict(okd, attr="b"), dict(okd, attr="a", code=okd["code"] + 1),
-        dict(okd, attr="c", code=7, dx=False), dict(okd, attr="d", code=8, cont="OcOlr", dg=False), dict(okd, attr="e", code=9, cont="NoSuchClass", dg=True)]}
+        dict(okd, attr="c", code=7, dx=False), dict(okd, attr="d", code=8, cont="OcOlr", dg=False), dict(okd, attr="e", code=9, cont="NoSuchClass", dg=True),
+        dict(okd, attr="f", code=10, annotated=True, listann=True, listdef=False, list=True), dict(okd, attr="g", code=11, annotated=True, listann=False, listdef=True, list=True)],
+        "annonly": ["h"]}
     tpath = os.path.join(OUT, "c03_tables.json")
     with open(tpath, "w") as f:
         json.dump(tables, f)
@@ -318,7 +330,8 @@ def run(tier, seed):
     wf = evaluate(tpath, [{"op": "wellformed", "cls": n} for n in names], "c03_wf")
     n_viol = 0
     canary = {v["k"] for n, o in zip(names, wf) if n == "ZzCanary" for v in o["viol"]}
-    if canary != {"no_dictionary_entry", "container_but_not_grouped", "container_unknown", "two_attributes_same_avp", "attribute_declared_twice"}:
+    if canary != {"no_dictionary_entry", "container_but_not_grouped", "container_unknown", "two_attributes_same_avp", "attribute_declared_twice",
+                  "list_attribute_not_initialised_as_list", "list_default_for_attribute_not_annotated_as_list", "annotated_attribute_without_definition"}:
         raise tlc.TlcError("binding self-test failed: AttrMap!Viol on the defective canary table gave %r" % sorted(canary))
     wf = [o for n, o in zip(names, wf) if n != "ZzCanary"]
     names = [n for n in names if n != "ZzCanary"]
